@@ -364,7 +364,12 @@ func (w *dictWatch) OnRecord(rec arrow.Record, pt record_message.PayloadType) {
 			n := uint64(c.Dictionary().Len())
 			w.stats["dict_columns_seen"]++
 			w.stats[fmt.Sprintf("index_cap_%d", cap)]++
-			w.rows = append(w.rows, fmt.Sprintf("(%d, %d, %d)", w.limit, cap, n))
+			// the overflow detection of RecordBuilderExt visits the columns whose field carries the dictionary transform's id
+			watched := f.Metadata.FindKey(transform.DictIdKey) >= 0
+			if !watched {
+				w.stats["dict_columns_not_watched"]++
+			}
+			w.rows = append(w.rows, fmt.Sprintf("(%d, %d, %d, %v)", w.limit, cap, n, watched))
 			if n > cap || cap > w.limit || w.limit == 0 {
 				w.out.Violation("C13", "dictionary-exceeds-limit", fmt.Sprintf("%s column %s: dictionary of %d entries, index cap %d, configured limit %d", pt, path, n, cap, w.limit), w.ctx)
 			}
@@ -460,9 +465,24 @@ func runDictProducer(o opts, r *Rng, out *Output) {
 						p := arrow_record.NewProducerWithOptions(options2...)
 						defer p.Close()
 						base := 0
-						for _, n := range sizes {
+						for bi, n := range sizes {
 							var err error
-							switch d := distinctRich(sig, n, base, own).(type) {
+							var data any = distinctRich(sig, n, base, own)
+							if bi == 0 && thr != 0.3 {
+								// the stream opens with items that leave every optional child of the struct columns absent (anonymous
+								// scope, no status, no body): the dictionary children appear through later schema updates
+								switch sig {
+								case 0:
+									data = spansOfKinds(4, func(int) int { return 0 })
+								case 1:
+									ld := plog.NewLogs()
+									ld.ResourceLogs().AppendEmpty().ScopeLogs().AppendEmpty().LogRecords().AppendEmpty().SetSeverityNumber(plog.SeverityNumberInfo)
+									data = ld
+								default:
+									data = pointsOfKinds(2, func(int) int { return 0 })
+								}
+							}
+							switch d := data.(type) {
 							case ptrace.Traces:
 								_, err = p.BatchArrowRecordsFromTraces(d)
 							case plog.Logs:
@@ -484,12 +504,16 @@ func runDictProducer(o opts, r *Rng, out *Output) {
 		}
 	}
 	var sb strings.Builder
-	sb.WriteString("Definition prod_rows : list (N * N * N) := [\n " + strings.Join(rows, ";\n ") + "\n].\n")
-	sb.WriteString(`(* (configured limit, index cap, dictionary length) of every dictionary column of every transmitted record *)
-Definition prod_propfail := Eval vm_compute in failing (fun t : N * N * N => let '(lim, w, n) := t in (n <=? w) && (w <=? lim)) prod_rows.
+	sb.WriteString("Definition prod_rows : list (N * N * N * bool) := [\n " + strings.Join(rows, ";\n ") + "\n].\n")
+	sb.WriteString(`(* (configured limit, index cap, dictionary length, under overflow detection) of every dictionary column of every transmitted record *)
+Definition prod_propfail := Eval vm_compute in failing (fun t : N * N * N * bool => let '(lim, w, n, _) := t in (n <=? w) && (w <=? lim)) prod_rows.
 Print prod_propfail.
+(* the model (DictMachine) updates every dictionary column after every record: a dictionary column the real overflow
+   detection does not visit (no dictId on its field) is outside what the theorems cover *)
+Definition prod_mismatch := Eval vm_compute in failing (fun t : N * N * N * bool => snd t) prod_rows.
+Print prod_mismatch.
 `)
 	out.Coq.WriteString(sb.String())
-	out.Lists = append(out.Lists, "prod_propfail")
+	out.Lists = append(out.Lists, "prod_propfail", "prod_mismatch")
 	out.Extra["stats"] = stats
 }
